@@ -92,7 +92,16 @@ def run_laws(ctx, binary, thorough):
 
 
 def run_samplers(ctx, binary, thorough):
-    pass
+    # (protocol, MaxB, MaxSteps, MaxBurn, MaxRate): one TLC run explores every script in the bound, checks the counting /
+    # structural invariants at every state (R1) and prints every complete script (R2)
+    plan = [("rejection", 2, 5, 0, 0), ("mh", 3, 0, 2, 3), ("lhc", 4, 0, 0, 0), ("simple", 3, 0, 0, 0)]
+    if thorough:
+        plan = [("rejection", 3, 6, 0, 0), ("mh", 4, 0, 3, 3), ("lhc", 5, 0, 0, 0), ("simple", 4, 0, 0, 0)]
+    for proto, maxb, maxsteps, maxburn, maxrate in plan:
+        sub = dict(PROTO=proto, MAXB=maxb, MAXSTEPS=maxsteps, MAXBURN=maxburn, MAXRATE=maxrate, EMIT="TRUE")
+        cases = ctx.gen("dist/SamplerProtocol.tla", "dist/SamplerProtocol.cfg", subst=sub,
+                        name="R1+R2 sampler protocol %s batch<=%d (invariants checked, scripts printed)" % (proto, maxb))
+        ctx.replay(binary, "dist-samplers", cases, name="R2 replay sampler scripts %s batch<=%d" % (proto, maxb))
 
 
 def replay(ctx, path):
